@@ -152,6 +152,53 @@ func checkFreshClaim(c *core.Ctx, l *core.Ledger, rule string, rels []string, fl
 					other = append(other, c.Rel(mu.Pos())+": key "+core.Sym(mu.Key))
 				}
 			})
+			if !claimed && len(other) == 0 {
+				// the search is a helper that hands the free name to its caller: the caller records it
+				returnsCand := false
+				core.Instrs(f, func(ins ssa.Instruction) {
+					if r, ok := ins.(*ssa.Return); ok && len(r.Results) >= 1 && exitVals[r.Results[0]] {
+						returnsCand = true
+					}
+				})
+				if returnsCand {
+					sites := 0
+					all := true
+					for _, site := range c.StaticCallSites(f) {
+						if c.IsTestFile(site.Pos()) {
+							continue
+						}
+						sites++
+						var res ssa.Value
+						if v, isV := site.(ssa.Value); isV {
+							res = v
+						}
+						got := false
+						core.Instrs(site.Parent(), func(ins ssa.Instruction) {
+							mu, ok := ins.(*ssa.MapUpdate)
+							if !ok {
+								return
+							}
+							fld, _ := core.LoadedField(mu.Map)
+							if fld == nil || !consulted[fld] {
+								return
+							}
+							k := mu.Key
+							if ex, isEx := k.(*ssa.Extract); isEx && ex.Index == 0 {
+								k = ex.Tuple
+							}
+							if res != nil && k == res {
+								got = true
+							} else {
+								other = append(other, c.Rel(mu.Pos())+": key "+core.Sym(mu.Key))
+							}
+						})
+						if !got {
+							all = false
+						}
+					}
+					claimed = sites > 0 && all
+				}
+			}
 			why := "the name found free is not recorded in the set the search consults"
 			if len(other) > 0 {
 				why += "; the set is updated with another key (" + other[0] + ")"
